@@ -129,9 +129,9 @@ fn in_model_fragment(family: &str) -> bool {
         | "nest/table-parens-derived")
 }
 
-struct Deep { name: &'static str, dialect: &'static str, build: fn(usize) -> String }
+pub struct Deep { pub name: &'static str, pub dialect: &'static str, pub build: fn(usize) -> String }
 
-fn deep_families() -> Vec<Deep> {
+pub fn deep_families() -> Vec<Deep> {
     fn rep(s: &str, n: usize) -> String { s.repeat(n) }
     vec![
         Deep { name: "chain/plus", dialect: "generic", build: |n| format!("SELECT 1{}", rep(" + 1", n)) },
@@ -143,6 +143,24 @@ fn deep_families() -> Vec<Deep> {
         Deep { name: "chain/array-suffix-type", dialect: "postgresql", build: |n| format!("SELECT CAST(a AS INT{})", rep("[]", n)) },
         Deep { name: "chain/at-time-zone", dialect: "generic", build: |n| format!("SELECT a{}", rep(" AT TIME ZONE 'x'", n)) },
         Deep { name: "chain/join", dialect: "generic", build: |n| format!("SELECT * FROM t{}", rep(" JOIN t ON 1 = 1", n)) },
+        Deep { name: "chain/join-bare", dialect: "generic", build: |n| format!("SELECT * FROM t{}", rep(" JOIN t", n)) },
+        Deep { name: "chain/cross-join", dialect: "generic", build: |n| format!("SELECT * FROM t{}", rep(" CROSS JOIN t", n)) },
+        Deep { name: "chain/natural-join", dialect: "generic", build: |n| format!("SELECT * FROM t{}", rep(" NATURAL JOIN t", n)) },
+        Deep { name: "chain/left-join-using", dialect: "generic", build: |n| format!("SELECT * FROM t{}", rep(" LEFT JOIN t USING (a)", n)) },
+        Deep { name: "chain/comma-from", dialect: "generic", build: |n| format!("SELECT * FROM t{}", rep(", t", n)) },
+        Deep { name: "chain/or", dialect: "generic", build: |n| format!("SELECT a{}", rep(" OR a", n)) },
+        Deep { name: "chain/concat", dialect: "generic", build: |n| format!("SELECT a{}", rep(" || a", n)) },
+        Deep { name: "chain/json-arrow", dialect: "postgresql", build: |n| format!("SELECT a{}", rep(" -> 'k'", n)) },
+        Deep { name: "chain/intersect", dialect: "generic", build: |n| format!("SELECT 1{}", rep(" INTERSECT SELECT 1", n)) },
+        Deep { name: "chain/union-all-values", dialect: "generic", build: |n| format!("VALUES (1){}", rep(" UNION ALL VALUES (1)", n)) },
+        Deep { name: "chain/lateral-view", dialect: "hive", build: |n| format!("SELECT * FROM t{}", rep(" LATERAL VIEW explode(a) x AS y", n)) },
+        Deep { name: "chain/case-when", dialect: "generic", build: |n| format!("SELECT CASE{} END", rep(" WHEN a THEN 1", n)) },
+        Deep { name: "chain/alter-table-ops", dialect: "generic", build: |n| format!("ALTER TABLE t ADD COLUMN c0 INT{}", rep(", ADD COLUMN c INT", n)) },
+        Deep { name: "chain/map-access", dialect: "generic", build: |n| format!("SELECT a{}", rep("['k']", n)) },
+        Deep { name: "siblings/in-list", dialect: "generic", build: |n| format!("SELECT a IN ({}1)", rep("1, ", n)) },
+        Deep { name: "siblings/columns", dialect: "generic", build: |n| format!("CREATE TABLE t ({}c INT)", rep("c INT, ", n)) },
+        Deep { name: "siblings/ctes", dialect: "generic", build: |n| format!("WITH {}a AS (SELECT 1) SELECT 1", rep("a AS (SELECT 1), ", n)) },
+        Deep { name: "siblings/order-by", dialect: "generic", build: |n| format!("SELECT 1 ORDER BY {}a", rep("a, ", n)) },
         Deep { name: "chain/compound-ident", dialect: "generic", build: |n| format!("SELECT a{}", rep(".a", n)) },
         Deep { name: "siblings/projection", dialect: "generic", build: |n| format!("SELECT {}1", rep("1, ", n)) },
         Deep { name: "siblings/statements", dialect: "generic", build: |n| rep("SELECT 1; ", n) },
@@ -183,6 +201,7 @@ pub fn deep_child(args: &[String]) {
     match res {
         G::Val(Ok(v)) => {
             println!("parsed steps={steps}");
+            if args.get(3).map(|x| x == "parse-only").unwrap_or(false) { std::mem::forget(v); return; }
             let s: usize = v.iter().map(|x| x.to_string().len()).sum();
             println!("printed len={s}");
             let dl = format!("{v:?}").len();
